@@ -41,7 +41,7 @@ theorem C03_wf_traced (c : Trace.Code) (O : Trace.Options) (ty : Trace.Ty)
     (h : toMarrow (codecExt f32Str f64Str cast) fields rows = .ok arrs) :
     arrs.length = fields.length ∧
     ∀ (j : Nat) (f : Field) (a : Arr), fields[j]? = some f → arrs[j]? = some a →
-      WF f a = true ∧ (decodeAll a).length = rows.length :=
+      WFS f a = true ∧ (decodeAll a).length = rows.length :=
   C03_wf_codec_typed f32Str f64Str cast fields rows arrs (fromType_good c O ty fields ho hft).1 hsafe hrows h
 
 /-- non-vacuity: a type with an enum, a map and dictionary-encoded strings traces successfully (so `fromType_good`
